@@ -43,18 +43,18 @@ type exchanger interface {
 }
 
 type batchCfg struct {
-	Transport string  `json:"transport"` // pipe-stream | pipe-dgram | reuse
-	Policy    string  `json:"policy"`    // inorder | window | reverse | dup | stray | late | mix
-	Callers   int     `json:"callers"`
-	PerCaller int     `json:"per_caller"`
-	Window    int     `json:"window"`
-	Limit     int     `json:"limit"` // per-connection concurrency limit
-	MaxRead   int     `json:"max_read"`
-	CancelPct int     `json:"cancel_pct"`
-	Procs     int     `json:"gomaxprocs"`
-	Perturb   bool    `json:"perturb"`
-	Seed      int64   `json:"seed"`
-	Surplus   bool    `json:"surplus"` // reuse: inject surplus replies at quiescent points
+	Transport string `json:"transport"` // pipe-stream | pipe-dgram | reuse
+	Policy    string `json:"policy"`    // inorder | window | reverse | dup | stray | late | mix
+	Callers   int    `json:"callers"`
+	PerCaller int    `json:"per_caller"`
+	Window    int    `json:"window"`
+	Limit     int    `json:"limit"` // per-connection concurrency limit
+	MaxRead   int    `json:"max_read"`
+	CancelPct int    `json:"cancel_pct"`
+	Procs     int    `json:"gomaxprocs"`
+	Perturb   bool   `json:"perturb"`
+	Seed      int64  `json:"seed"`
+	Surplus   bool   `json:"surplus"` // reuse: inject surplus replies at quiescent points
 }
 
 type call struct {
@@ -100,19 +100,19 @@ type batch struct {
 }
 
 type connAdv struct {
-	b    *batch
-	c    *fakenet.Conn
-	mu   sync.Mutex
-	defr wire.Deframer
-	pend []*pq
-	late []*pq
-	idx  int
-	tr   map[int]int
-	noise bool
+	b        *batch
+	c        *fakenet.Conn
+	mu       sync.Mutex
+	defr     wire.Deframer
+	pend     []*pq
+	late     []*pq
+	idx      int
+	tr       map[int]int
+	noise    bool
 	lastWire uint16
-	strayN int
-	since time.Time
-	permFp []string
+	strayN   int
+	since    time.Time
+	permFp   []string
 }
 
 func (b *batch) rnd(n int) int {
